@@ -1,10 +1,12 @@
 #![allow(dead_code)]
 mod driver;
+mod e2;
 mod explore;
 mod kit;
 mod program;
 mod props;
 mod rt;
+mod selftest;
 
 use driver::Tier;
 
@@ -38,6 +40,7 @@ fn main() {
             }
             0
         }
+        Some("selftest") => selftest::run(),
         Some("replay") => driver::replay(&specs, args.get(2).map(|s| s.as_str()).unwrap_or("")),
         Some("list") => {
             let id = args.get(2).cloned().unwrap_or_default();
